@@ -170,7 +170,21 @@ def _install():
 
 def _gt_check(mon, lat):
     from forsys import frames
+    from fv.oracle import mesh as omesh, topo
+    # the parsed mesh itself: every back-reference of a vertex points at an element that exists (dropped edges included)
+    bad = omesh.check_mesh(lat.vertices, lat.edges, lat.cells)
+    if bad:
+        mon.fail("parsed-mesh-inconsistent", "vertices, edges and cells of the parsed mesh refer to each other consistently",
+                 first=bad[:3])
     fr = frames.Frame(0, lat.vertices, lat.edges, lat.cells, gt=True)
+    # interfaces of the frame = maximal paths of the mesh (computed from the edge records, not from the back-references)
+    try:
+        n_ref = len(topo.Topo(lat.vertices, lat.edges, lat.cells).paths)
+        if n_ref != len(fr.big_edges_list):
+            mon.fail("interface-count", "a frame built from the parsed mesh has the interfaces of the mesh", got=len(fr.big_edges_list),
+                     want=n_ref)
+    except Exception:
+        pass
     df = fr.get_gt_tensions(with_border=True)
     ids = [int(i) for i in df["id"]]
     if ids != list(range(len(fr.big_edges_list))):
